@@ -34,9 +34,12 @@ func (self *Interpreter) importItem(node ast.AnalyzedImport) *value.Interrupt {
 	_, moduleFound := self.sourceModules[node.FromModule.Ident()]
 
 	if moduleFound {
-		// visit the module so that the root scope is populated
-		if i := self.execModule(node.FromModule.Ident(), true); i != nil {
-			return i
+		// visit the module so that the root scope is populated: once, however many import statements name it
+		// (its globals are initialised once, and everybody who imports from it means the same module)
+		if _, executed := self.modules[node.FromModule.Ident()]; !executed {
+			if i := self.execModule(node.FromModule.Ident(), true); i != nil {
+				return i
+			}
 		}
 
 		for _, importItem := range node.ToImport {
